@@ -52,6 +52,9 @@ OBLIGATIONS = [
     "C02_ind_step_well_typed", "C02_later_history_opkinds", "C02_compose_examples",
     # weighted values (State/StateWExec.v): mix = _select = row-wise selection of value AND weight
     "C02_partial_revert_weighted", "C02_weighted_select_rows",
+    # n-d values (State/StateNdExec.v): per-individual values with a trailing shape, right_broadcasting both ways, refusals
+    "C02_nd_select_rows", "C02_nd_weighted_select_rows", "C02_nd_last_axis", "C02_nd_refused_bad_shapes", "C02_nd_refused_by_torch",
+    "C02_nd_contract_needs_fit", "C02_nd_contract_is_torch", "C02_nd_contract_keeps_shape", "C02_nd_select_examples",
 ]
 
 HEADER = ("From Coq Require Import ZArith List Bool.\n"
@@ -1371,6 +1374,11 @@ def main(run: Run):
         directed_shapes(run)
     except Exception as e:  # noqa
         run.broken("directed-shapes", f"{type(e).__name__}: {e}")
+    try:
+        T.directed_select(run)
+    except Exception as e:  # noqa
+        import traceback
+        run.broken("directed-nd-select", f"{type(e).__name__}: {e}\n{traceback.format_exc()[-1500:]}")
     try:
         toy_steps(run, 400 if thorough else 120)
     except Exception as e:  # noqa
